@@ -167,6 +167,8 @@ def gen_chain_schema(rng):
 # ends in a swallowed RecursionError and from_msgpack answers SuitableVariantNotFoundError after exponential time
 # (a /repo defect outside C19, reported).
 NO_FORMAT_METHOD = ("dict", "json", "yaml", "plain")
+if __import__("os").environ.get("C19_FIELDLESS_ALL"):      # for trying a repaired tree (fixes/C19-variant-own-method.diff)
+    NO_FORMAT_METHOD = tuple(KINDS)
 
 
 def conv_disc(t, p, wf, sup):
